@@ -210,6 +210,27 @@ def bounded(b):
                             key=repr)
                 b.case("merge/directions_once_each_at_the_same_musical_time", gd == sorted(dirs, key=repr), case,
                        "directions %r, the inputs hold %r" % ([(a, t, str(x)) for a, t, x, _ in gd][:8], [(a, t, str(x)) for a, t, x, _ in sorted(dirs, key=repr)][:8]))
+    # a second part whose timeline begins later than the first one's (its first note enters in the second bar, nothing is written before it),
+    # and parts in 6/8 with a long upbeat that count musical beats
+    for cname, mkparts in (("second_part_enters_later_without_rests", lambda: [G.build_part("P0", 2, notes=[("a0", 0, 4, "C", None, 4, 1, 1), ("a1", 4, 4, "D", None, 4, 1, 1)], measures=[(0, 8)]),
+                                                                                G.build_part("P1", 3, notes=[("b0", 3, 6, "G", None, 3, 1, 1), ("b1", 9, 3, "A", None, 3, 1, 1)], measures=[])]),
+                           ("six_eight_with_an_upbeat_of_five_eighths_counted_in_musical_beats", lambda: [
+                               G.build_part("P0", 2, ts=((0, 6, 8),), notes=[("a0", 0, 5, "C", None, 4, 1, 1), ("a1", 5, 6, "D", None, 4, 1, 1)], measures=[(0, 5), (5, 11)]),
+                               G.build_part("P1", 4, ts=((0, 6, 8),), notes=[("b0", 0, 10, "G", None, 3, 1, 1), ("b1", 10, 12, "A", None, 3, 1, 1)], measures=[(0, 10), (10, 22)])])):
+        pl = mkparts()
+        if "musical" in cname:
+            for p_ in pl:
+                p_.use_musical_beat()
+        case = {"config": cname}
+        sco = G.simple_score(pl)
+        ok, res = b.guard("merge/no_exception", case, lambda: (sco.note_array(), sc.merge_parts(sco)))
+        if ok:
+            ref, mg = res
+            na = mg.note_array()
+            want = sorted((round(float(r["onset_quarter"]), 6), round(float(r["duration_quarter"]), 6), int(r["pitch"])) for r in ref)
+            got = sorted((round(float(r["onset_quarter"]), 6), round(float(r["duration_quarter"]), 6), int(r["pitch"])) for r in na)
+            b.case("merge/sounding_notes_equal_the_score_level_note_array", got == want, case,
+                   "merged part (onset, duration in quarters, pitch) %r, score-level array %r" % (got, want))
     # far into a piece on a fine common grid: positions a few divisions apart stay apart (768 and 10080 divisions, lcm 80640; bar 3 ends at 967 680)
     pa = G.build_part("P0", 10080, notes=[("a0", 0, 120958, "C", None, 4, 1, 1), ("a1", 120958, 1, "D", None, 4, 1, 1), ("a2", 120959, 1, "E", None, 4, 1, 1), ("a3", 120961, 3, "F", None, 4, 1, 1)],
                       measures=[(0, 40320), (40320, 80640), (80640, 120960), (120960, 161280)])
